@@ -4,6 +4,7 @@ import (
 	"bytes"
 	"filippo.io/age/plugin"
 	"fmt"
+	"io"
 	"os"
 	"path/filepath"
 	"sort"
@@ -427,6 +428,51 @@ func c11CheckCLI(c c11CLI, st *stats.Run) error {
 	return nil
 }
 
+// a recipient that cannot wrap because the CSPRNG fails during its wrap: Encrypt refuses and writes nothing
+type c11RandFault struct {
+	Recs  []hx.RecSpec `json:"recs"`
+	Read  int          `json:"read"`  // which read of the CSPRNG fails (once)
+	Short int          `json:"short"` // bytes delivered with the failure
+}
+
+func c11CheckRandFault(c c11RandFault, st *stats.Run) error {
+	p := hx.ThePool()
+	var recs []age.Recipient
+	for _, r := range c.Recs {
+		recs = append(recs, p.Recipient(r))
+	}
+	tape := hx.NewFailingTape(51, c.Read, c.Short)
+	var dst hx.RecWriter
+	var w io.WriteCloser
+	var err error
+	hx.WithTape(tape, func() { w, err = age.Encrypt(&dst, recs...) })
+	st.Case(tape.Fired(), stats.HashJSON(c), "rand-fault", fmt.Sprintf("rand-fault:fired=%v", tape.Fired()), "rand-fault:mix="+hx.KindsOf(c.Recs))
+	if !tape.Fired() {
+		if w != nil {
+			w.Close()
+		}
+		return nil
+	}
+	if err == nil {
+		return pbt.Failf("C11/wrong-decision", "the CSPRNG failed on read %d while Encrypt was wrapping the file key for %v, yet Encrypt succeeded (%d bytes written)", c.Read, c.Recs, dst.Buf.Len())
+	}
+	// the last draw of an encryption is the payload nonce, made after the header is out: that failure is not a refusal of the recipient list
+	clean := &hx.Tape{Seed: 51}
+	hx.WithTape(clean, func() {
+		if cw, cerr := age.Encrypt(io.Discard, recs...); cerr == nil {
+			cw.Close()
+		}
+	})
+	if c.Read >= len(clean.Reads)-1 {
+		st.Label("rand-fault:at-the-nonce")
+		return nil
+	}
+	if w != nil || dst.Buf.Len() != 0 {
+		return pbt.Failf("C11/bytes-before-refusal", "Encrypt failed (%v) after the CSPRNG failed on read %d (a recipient's wrap), but a writer was returned or %d bytes were written", err, c.Read, dst.Buf.Len())
+	}
+	return nil
+}
+
 // through the age command with plugin recipients that declare labels, given
 // with -r or listed in a recipients file (-R)
 type c11PlugCLI struct {
@@ -448,12 +494,20 @@ func c11CheckPlugCLI(c c11PlugCLI, st *stats.Run) error {
 	defer os.RemoveAll(dir)
 	pdir := filepath.Join(dir, "plugins")
 	stanza := "-> recipient-stanza 0 lbl arg\n" + refage.B64(hx.PRG(3, 32)) + "\n"
-	for _, name := range []string{"lbl", "nol"} {
+	for _, name := range []string{"lbl", "nol", "dies", "diesmid"} {
 		sc := &hx.PlugScript{Steps: []hx.PlugStep{{Raw: stanza}}}
-		if name == "lbl" {
+		switch name {
+		case "lbl":
 			sc.Steps = append(sc.Steps, hx.PlugStep{Raw: "-> labels postquantum\n\n"})
+		case "dies":
+			// the plugin goes away after its stanza was acknowledged, before saying done
+			sc.Steps = append(sc.Steps, hx.PlugStep{CloseNow: true})
+		case "diesmid":
+			sc.Steps = append(sc.Steps, hx.PlugStep{Raw: "-> labels postq", CloseNow: true})
 		}
-		sc.Steps = append(sc.Steps, hx.PlugStep{Raw: "-> done\n\n", NoReply: true})
+		if name == "lbl" || name == "nol" {
+			sc.Steps = append(sc.Steps, hx.PlugStep{Raw: "-> done\n\n", NoReply: true})
+		}
 		if err := hx.InstallPluginNamed(dir, pdir, name, sc); err != nil {
 			return pbt.Failf("C11/harness", "%v", err)
 		}
@@ -473,6 +527,10 @@ func c11CheckPlugCLI(c c11PlugCLI, st *stats.Run) error {
 		case "lbl":
 			str = plugin.EncodeRecipient("lbl", []byte{byte(i)})
 			sets["postquantum"] = true
+		case "dies", "diesmid":
+			str = plugin.EncodeRecipient(kind, []byte{byte(i)})
+			sets["(fails to wrap)"] = true
+			sets["(fails to wrap) "] = true
 		default:
 			str = plugin.EncodeRecipient("nol", []byte{byte(i)})
 			sets[""] = true
@@ -520,6 +578,18 @@ func TestC11(t *testing.T) {
 	check := func(c c11Case) error { return c11Check(c, s.St) }
 	pbt.Regress(s, "labels", check)
 
+	pbt.Each(s, "wrap-fails-rand", func(yield func(c11RandFault)) {
+		n := 0
+		for _, recs := range [][]hx.RecSpec{{{Kind: "scrypt", Pass: "pw", WF: 1}}, {{Kind: "x25519", Idx: 0}}, {{Kind: "x25519", Idx: 0}, {Kind: "ed25519", Idx: 0}, {Kind: "x25519", Idx: 1}}, {{Kind: "rsa", Idx: 0}, {Kind: "x25519", Idx: 1}}} {
+			for read := 0; read < 6; read++ {
+				for _, short := range []int{0, 5} {
+					yield(c11RandFault{Recs: recs, Read: read, Short: short})
+					n++
+				}
+			}
+		}
+		s.St.Exhaust("the CSPRNG failing once on each of its first six reads (with 0 or 5 bytes delivered) while Encrypt wraps for passphrase, X25519, SSH recipient lists", int64(n))
+	}, func(c c11RandFault) error { return c11CheckRandFault(c, s.St) })
 	pbt.Each(s, "labels-cli-plugin", func(yield func(c11PlugCLI)) {
 		kinds := []string{"x", "lbl", "nol", "x:R", "lbl:R", "nol:R"}
 		n := 0
@@ -535,7 +605,7 @@ func TestC11(t *testing.T) {
 				n++
 			}
 		}
-		for _, l := range [][]string{{"x", "nol:R", "lbl:R"}, {"lbl:R", "lbl:R", "x"}, {"lbl", "lbl:R", "lbl"}, {"nol:R", "x:R", "x"}} {
+		for _, l := range [][]string{{"dies"}, {"diesmid"}, {"x", "dies"}, {"dies:R", "x"}, {"diesmid", "x"}, {"x", "nol:R", "lbl:R"}, {"lbl:R", "lbl:R", "x"}, {"lbl", "lbl:R", "lbl"}, {"nol:R", "x:R", "x"}} {
 			if s.Mine(n) {
 				yield(c11PlugCLI{Recs: l, Out: "file"})
 			}
